@@ -73,6 +73,17 @@ TRANSLATORS.append(("tr_versioning", _versioning))
 GEN_FILES.append("Gen/VersioningTables.v")
 
 
+def _scoid():
+    import tr_scoid
+    text, _ = tr_scoid.translate(common.REPO, common.PY)
+    common.write_if_changed(os.path.join(common.COQ, "Gen", "ScoIdTables.v"), text)
+
+
+TRANSLATORS.append(("tr_scoid", _scoid))
+GEN_FILES.append("Gen/ScoIdTables.v")
+
+
+
 def run_all():
     out = []
     for name, fn in TRANSLATORS:
@@ -82,3 +93,4 @@ def run_all():
         except Exception as e:  # noqa: BLE001 -- a translator abort must not stop the others
             out.append((name, False, "%s: %s" % (type(e).__name__, e)))
     return out
+
